@@ -85,6 +85,13 @@ class ReadBuf:
         pad, f = (b'\xff', '>i') if ord(v[0:1]) & 0x80 != 0 else (b'\x00', '>I')
         return self._parse_mpint(v, pad, f)
 
+    def has_unread_line(self) -> bool:
+        '''Returns True if the unread data contains at least one complete (newline-terminated) line.'''
+        pos = self._buf.tell()
+        unread = self._buf.read()
+        self._buf.seek(pos, 0)
+        return b'\n' in unread
+
     def read_line(self) -> str:
         return self._buf.readline().rstrip().decode('utf-8', 'replace')
 
